@@ -437,7 +437,11 @@ class CpSpace(Base):
         n = self.params.get("n", 6)
         tail = self.params.get("tail", 2)
 
+        nr = self.params.get("nr", 0)  # the whole body runs with rewindable switched off (nothing is cached for replay)
+
         def plan():
+            if nr:
+                yield Msg("rewindable", None, False)
             for i in range(n):
                 if i % s == 0:
                     yield Msg("checkpoint")
@@ -446,5 +450,7 @@ class CpSpace(Base):
                 yield Msg("null", None, i)
             for i in range(tail):
                 yield Msg("null", None, f"tail{i}")
+            if nr:
+                yield Msg("rewindable", None, True)
 
         return plan()
